@@ -665,6 +665,12 @@ class SymDim:
     def __rsub__(self, o): return lift(o) - self.poly()
     def _derived(self, o, sym, fn):
         """extent computed from extents: a named extent whose polynomial value is remembered (see axis_extent)"""
+        if sym in ('*', '//') and not isinstance(o, SymDim):
+            try:
+                if _dim(o) == 1:
+                    return self               # |A| * 1, |A| // 1
+            except Exception:
+                pass
         nm = f"({self.name}{sym}{getattr(o, 'name', o)})"
         try:
             eo = axis_extent(o.name) if isinstance(o, SymDim) else lift(o)
